@@ -1190,7 +1190,7 @@ fn policies(n: usize) -> Vec<Vec<bool>> {
 pub fn configs(prop: CProp, tier: Tier) -> Vec<CCfg> {
     let mut out = Vec::new();
     let thorough = tier == Tier::Thorough;
-    let transports: &[(Flavour, usize)] = &[(Flavour::Always, 1), (Flavour::Coupled, 1)];
+    let transports: &[(Flavour, usize)] = &[(Flavour::Always, 1), (Flavour::Coupled, 1), (Flavour::FlushFrees, 1)];
     match prop {
         CProp::C01 => {
             let alpha = A_REPLY_UNOWED | A_DUP | A_UNKNOWN | A_ABANDON | A_ADVANCE;
